@@ -209,12 +209,20 @@ class Sock(ThreadSocket):
 
     def __init__(self, sched, *a, **kw):
         self._sched = sched
+        self.inc_cb = bool(kw.get("use_callbacks", False))   # delivery mode of this incarnation of the key
+        self.t_open = None          # scheduler clock when the constructor (connect) returned
+        self.t_close_start = None   # ... when disconnect was called
+        self.t_closed = None        # ... when disconnect returned
         super().__init__(*a, **kw)
 
     def recv_callback(self, msg):
         k = tuple(key_json(self.key))
         self._sched.cb_store.setdefault(k, []).append(decode(msg))
         self._sched.delivery.setdefault(k, []).append(("cb", decode(msg)))
+        w = threading.current_thread()
+        ev = getattr(w, "cur_send", None)
+        if ev is not None:          # the callback runs inside the sender's `send`
+            ev["path"], ev["target"] = "cb", self
 
     def conn_lost_callback(self):
         self._sched.lost_log.append(key_json(self.key))
@@ -238,6 +246,7 @@ class Worker(threading.Thread):
         self.held = set()
         self.cur_nonblock = False
         self.op_start = 0
+        self.cur_send = None
         self.nb_seen = []       # (key, queue length at the start of a non-blocking recv, outcome)
 
     # -- tracing
@@ -299,8 +308,10 @@ class Worker(threading.Thread):
         structured = s.structured(self.tid, rn, sid)
         if kind == "c":
             sock = Sock(s, node_name(self.tid), node_name(rn), socket_id=sid, use_callbacks=bool(op[3]))
+            sock.t_open = s.clock
             self.socks[(rn, sid)] = sock
             s.all_socks.append(sock)
+            s.incarnations.setdefault(tuple(kj), []).append(sock)
             self.res.append(["connected", kj])
             return
         sock = self.socks.get((rn, sid))
@@ -309,14 +320,21 @@ class Worker(threading.Thread):
         if kind == "s":
             m = op[3]
             self.inflight = (tuple(key_json(sock.remote_key)), m)
+            ev = {"key": tuple(key_json(sock.remote_key)), "m": m, "start": s.clock, "end": None, "ok": False,
+                  "path": None, "target": None}
+            self.cur_send = ev
             try:
                 if structured:
                     sock.send_structured(StructuredMessage(header="h", payload=m))
                 else:
                     sock.send(encode_plain(m))
                 self.res.append(["sent", kj, m])
+                ev["ok"] = True
             except ConnectionError:
                 self.res.append(["connErr", kj, m])
+            ev["end"] = s.clock
+            s.sends.append(ev)
+            self.cur_send = None
             self.inflight = None
         elif kind == "r":
             block = bool(op[3])
@@ -338,7 +356,12 @@ class Worker(threading.Thread):
             if not block:
                 self.nb_seen.append((kj, q0, out))
         elif kind == "d":
+            sock.t_close_start = s.clock
+            if len(op) > 3 and op[3]:
+                # public setter on the LIVE socket; the hub reads the flag at connect time only
+                sock.use_callbacks = not sock.use_callbacks
             SH._socket_hub.disconnect(sock)
+            sock.t_closed = s.clock
             self.res.append(["disconnected", kj])
         else:
             raise ValueError(op)
@@ -349,6 +372,8 @@ class Scheduler:
         self.line_kind, self.with_lines, _ = LOCATED
         self.cv = threading.Condition()
         self.cb_store, self.delivery, self.lost_log, self.all_socks = {}, {}, [], []
+        self.clock = 0              # number of completed steps
+        self.incarnations, self.sends = {}, []
         self._structured = set(structured_ids)
         SH._SocketHub._CONNECT_SLEEP_TIME = 0
         SH._SocketHub._RECV_SLEEP_TIME = 0
@@ -383,6 +408,7 @@ class Scheduler:
         with self.cv:
             if not self.cv.wait_for(lambda: w.count > c or w.done, timeout=4):
                 raise Stuck("thread %d did not come back from line %s" % (tid, w.line))
+        self.clock += 1
         if w.error is not None:
             raise w.error
         if not self.hub._lock.locked():
@@ -420,9 +446,16 @@ class Scheduler:
                 raise Stuck("thread %d did not terminate" % w.tid)
         final_queues = {tuple(key_json(k)): [decode(m) for m in v] for k, v in self.hub._messages.items() if v}
         SH.reset_socket_hub()
+        # drop every reference to the socket objects NOW (their __del__ calls hub.disconnect; it must hit the
+        # freshly reset hub, not the hub of a later case)
         self.all_socks.clear()
+        self.incarnations.clear()
+        for ev in self.sends:
+            ev["target"] = None
         for w in self.workers:
             w.socks.clear()
+            w.cur_send = None
+        SH.reset_socket_hub()
         return final_queues
 
 
@@ -449,7 +482,8 @@ def canon_model(snap):
 
 
 def ops_json(prog):
-    return [{op[0]: [int(x) for x in op[1:]]} for op in prog]
+    # the "toggle use_callbacks" flag of a disconnect is invisible to the hub: the model's disconnect has none
+    return [{op[0]: [int(x) for x in (op[1:3] if op[0] == "d" else op[1:])]} for op in prog]
 
 
 # ------------------------------------------------------------------ running one case
@@ -482,12 +516,23 @@ def run_case(progs, policy, structured_ids=(), max_steps=400):
         nb_blocked = [(w.tid, w.cur_key, w.count - w.op_start) for w in sc.workers
                       if not w.done and w.cur_nonblock and w.count - w.op_start >= 8]
         workers = sc.workers
+        incs = {k: [{"cb": so.inc_cb, "open": so.t_open, "close_start": so.t_close_start, "closed": so.t_closed}
+                    for so in v] for k, v in sc.incarnations.items()}
+        sends = []
+        for ev in sc.sends:
+            tgt = ev["target"]
+            ti = None
+            if tgt is not None:
+                ti = sc.incarnations.get(ev["key"], []).index(tgt) if tgt in sc.incarnations.get(ev["key"], []) else -1
+            sends.append({"key": ev["key"], "m": ev["m"], "start": ev["start"], "end": ev["end"], "ok": ev["ok"],
+                          "path": ev["path"], "target_inc": ti})
     finally:
         final_queues = sc.finish()
     return {"progs": progs, "structured": sorted(structured_ids), "schedule": schedule, "snaps": snaps,
             "final_queues": final_queues, "delivery": sc.delivery, "cb_store": sc.cb_store,
             "res": [w.res for w in workers], "inflight": [w.inflight for w in workers],
             "nb_seen": [x for w in workers for x in w.nb_seen],
+            "incarnations": incs, "sends": sends,
             "stuck_in_connect": stuck_in_connect, "nb_blocked": nb_blocked, "ever_open_at": ever_open_at,
             "steps_of": [schedule.count(t) for t in range(len(progs))]}
 
@@ -513,6 +558,24 @@ def rkey(k):
     return (k[1], k[0], k[2])
 
 
+def is_shuffle(total, a, b):
+    """is `total` an interleaving of `a` and `b` (each kept in order)?"""
+    if len(total) != len(a) + len(b):
+        return False
+    reach = {(0, 0)}
+    for x in total:
+        nxt = set()
+        for i, j in reach:
+            if i < len(a) and a[i] == x:
+                nxt.add((i + 1, j))
+            if j < len(b) and b[j] == x:
+                nxt.add((i, j + 1))
+        reach = nxt
+        if not reach:
+            return False
+    return (len(a), len(b)) in reach
+
+
 def oracle(case, settle_steps):
     """Exactly once, in order, per direction and socket id; non-blocking recv on a non-empty queue returns
     a message; rendezvous. Uses only what was observed on the real hub."""
@@ -529,10 +592,47 @@ def oracle(case, settle_steps):
         infl = case["inflight"][sender] if sender < len(case["inflight"]) else None
         dl = [m for _, m in case["delivery"].get(k, [])]
         q = case["final_queues"].get(k, [])
-        ok = dl + q == sent or (infl is not None and infl[0] == k and dl + q == sent + [infl[1]])
+        pops = [m for how, m in case["delivery"].get(k, []) if how == "pop"]
+        cbs = [m for how, m in case["delivery"].get(k, []) if how == "cb"]
+        incs_k = case["incarnations"].get(k, [])
+        if len(incs_k) <= 1 or not any(i["cb"] for i in incs_k):
+            # one incarnation, or plain in all its incarnations: one global sequence
+            ok = dl + q == sent or (infl is not None and infl[0] == k and dl + q == sent + [infl[1]])
+        else:
+            # several incarnations, some with callbacks: a message sent while the key is being closed is queued and
+            # popped by a later incarnation, so only the two paths are ordered: the queue path (pops ++ queue) and
+            # the callback path are each exactly-once and in order, and together they are exactly the sent sequence
+            ok = is_shuffle(sent, pops + q, cbs) or \
+                (infl is not None and infl[0] == k and is_shuffle(sent + [infl[1]], pops + q, cbs))
         if not ok:
             fails.append({"what": "channel %s: delivered %s + queued %s is not the sent sequence %s "
                                   "(exactly once, in order; message 0 is the empty string \"\")" % (list(k), dl, q, sent), "key": list(k)})
+    # every message goes to the incarnation of the receiving key that is open while it is sent
+    for ev in case["sends"]:
+        if not ev["ok"]:
+            continue
+        incs = case["incarnations"].get(ev["key"], [])
+        if ev["path"] == "cb" and ev["target_inc"] is not None and ev["target_inc"] >= 0:
+            tgt = incs[ev["target_inc"]]
+            if tgt["closed"] is not None and ev["start"] > tgt["closed"]:
+                fails.append({"what": "message %d for %s, sent at step %d, was handed to the callback of a socket that "
+                                      "had been disconnected at step %d (never queued, never received by the re-opened "
+                                      "endpoint)" % (ev["m"], list(ev["key"]), ev["start"], tgt["closed"]),
+                              "key": list(ev["key"])})
+                continue
+        for i, inc in enumerate(incs):
+            covers = inc["open"] is not None and inc["open"] < ev["start"] and \
+                (inc["close_start"] is None or ev["end"] < inc["close_start"])
+            if not covers:
+                continue
+            if inc["cb"] and not (ev["path"] == "cb" and ev["target_inc"] == i):
+                fails.append({"what": "message %d for %s was sent while the callback socket (incarnation %d) was open "
+                                      "but did not reach its callback" % (ev["m"], list(ev["key"]), i),
+                              "key": list(ev["key"])})
+            if not inc["cb"] and ev["path"] == "cb":
+                fails.append({"what": "message %d for %s was sent while the plain socket (incarnation %d) was open but "
+                                      "went to a callback instead of the queue" % (ev["m"], list(ev["key"]), i),
+                              "key": list(ev["key"])})
     for kj, q0, out in case["nb_seen"]:
         if q0 > 0 and out != "got":
             fails.append({"what": "non-blocking recv on %s reported %s although %d message(s) were queued"
@@ -782,7 +882,7 @@ def worker_explore(args):
         for (pa, pb) in pairs:
             if time.time() > deadline:
                 break
-            progs = build_pair(pa, pb)
+            progs = pb if pa == "progs" else build_pair(pa, pb)
             try:
                 cases, complete = explore(progs, (), max_preempt=max_preempt, deadline=deadline)
             except Stuck as e:
@@ -851,10 +951,13 @@ def gen_programs(rng, n_nodes=None, max_ops=4):
                 other = b if t == a else a
                 first = len([o for o in progs[t] if o[0] == "c"])
                 pos = rng.randrange(first, len(progs[t]) + 1)
-                progs[t].insert(pos, ("d", other, sid))
-                if rng.random() < 0.25:     # disconnect-reconnect history: the same key, a new socket object
-                    pos2 = rng.randrange(pos + 1, len(progs[t]) + 1)
-                    progs[t].insert(pos2, ("c", other, sid, int(cb[(t, other, sid)])))
+                # the public setter `use_callbacks` may be flipped on the live socket before it is closed
+                progs[t].insert(pos, ("d", other, sid, int(rng.random() < 0.3)))
+                if rng.random() < 0.35:     # disconnect-reconnect history: the same key, a new socket object,
+                    pos2 = rng.randrange(pos + 1, len(progs[t]) + 1)   # callback or plain whatever it was before
+                    progs[t].insert(pos2, ("c", other, sid, int(rng.random() < 0.5)))
+                    for _ in range(rng.randrange(0, 3)):               # and receives in the new incarnation
+                        progs[t].insert(rng.randrange(pos2 + 1, len(progs[t]) + 1), ("r", other, sid, 0))
     return progs, structured
 
 
@@ -892,6 +995,20 @@ def build_pair(pa, pb):
 
 # the schedule shape of F20 (DESIGN §6): B (callback socket) connects up to the point where its key is
 # visible, A connects and sends m1, B finishes registering, A sends m2.
+def history_pairs():
+    """endpoint programs whose key changes its delivery mode across a disconnect/reconnect (incl. flipping
+    `use_callbacks` on the live socket before closing it); thread 0 keeps sending"""
+    a3 = [("c", 1, 0, 0), ("s", 1, 0, 1), ("s", 1, 0, 2), ("s", 1, 0, 3)]
+    a2 = [("c", 1, 0, 0), ("s", 1, 0, 1), ("s", 1, 0, 2)]
+    out = []
+    for tog in (1, 0):
+        out.append([a3, [("c", 0, 0, 1), ("d", 0, 0, tog), ("c", 0, 0, 0), ("r", 0, 0, 0), ("r", 0, 0, 0)]])
+        out.append([a3, [("c", 0, 0, 0), ("d", 0, 0, tog), ("c", 0, 0, 1), ("r", 0, 0, 0)]])
+        out.append([a2, [("c", 0, 0, 1), ("d", 0, 0, tog), ("c", 0, 0, 1)]])
+        out.append([a2, [("c", 0, 0, 0), ("r", 0, 0, 0), ("d", 0, 0, tog), ("c", 0, 0, 0), ("r", 0, 0, 0)]])
+    return out
+
+
 def f20_case():
     progs = [[("c", 1, 0, 0), ("s", 1, 0, 1), ("s", 1, 0, 2)], [("c", 0, 0, 1)]]
     return progs
